@@ -42,6 +42,7 @@ class Job:
                       "kani": {"harnesses": 0, "verified": 0, "cbmc_s": 0.0, "wall_s": 0.0}}
         self.reg = emitters()
         self.extra_kani_flags = []
+        self.verus_rejected = {}       # pid -> reason; the program's Kani side still counts
         self.needs_fmt = any("Debug" in p.focus for p in programs)
         self.t0 = time.time()
 
@@ -181,7 +182,7 @@ pub fn replay<Z9: crate::src::Src>(s: &mut Z9, out: &mut Vec<(String, String, St
             try:
                 text, obls = self.verus_module(P)
             except Exception as ex:
-                self.fam.dropped[pid] = "contract generation / splitter anchor lost: %r" % (ex,)
+                self.verus_rejected[pid] = "contract generation / splitter anchor lost (Verus side only): %r" % (ex,)
                 continue
             if text is None:
                 self.edits.setdefault(pid, []).append("no Verus unit: " + obls)
@@ -233,7 +234,7 @@ pub fn replay<Z9: crate::src::Src>(s: &mut Z9, out: &mut Vec<(String, String, St
             if frontend:
                 if len(pids) == 1:
                     pid = pids[0]
-                    self.fam.dropped[pid] = "Verus front end rejected the extracted text (not a verdict): " + _short(err)
+                    self.verus_rejected[pid] = "Verus front end rejected the extracted text (not a verdict; Kani still decides this program): " + _short(err)
                 else:
                     retry += [[p] for p in pids]
                 continue
